@@ -36,10 +36,13 @@ LEVEL_NOTE = ('Lean kernel; gen_periodic translator; the hand transcription Mode
               'RDKit only inside the failing-input search.')
 TECHNIQUE = 'Lean 4 theorems (induction + decide +kernel over regenerated tables) + exhaustive model-vs-code correspondence'
 RULE = ('exhaustive grid: element in {B,C,N,O,F,P,S,Cl,Br,I} x charge -2..2 x radical x every multiset of <= 4 bonds of orders 1-3 to '
-        '{H,C,N,O,F,S,Cl,P} each evaluated for calc_implicit and check_implicit(0..4); '
+        '{H,C,N,O,F,S,Cl,P} (quick tier: the monovalent neighbours H, F, Cl single-bonded only; thorough: all 24 bond kinds), '
+        'each evaluated for calc_implicit and check_implicit(0..4); '
         'a context is non-trivial when it has at least one bond; distinct by (element, charge, radical, bond multiset). Plus every key of '
         'every compiled table of all 118 elements (distinct by (element, key)), seeded random contexts with aromatic/special bonds and any '
-        'element, and whole molecules atom by atom (distinct by canonical wire line; non-trivial when the molecule has a bond).')
+        'element, one context family per compiled rule of every element (exact environment, one neighbour more/less/exchanged), whole molecules '
+        'atom by atom (distinct by canonical wire line; non-trivial when the molecule has a bond), and implicify/explicify_hydrogens on molecules '
+        'whose hydrogens were made partly explicit through the public API (non-trivial when hydrogens are removed/added).')
 TRUSTED = ['gen_periodic translator (evaluates the property bodies of the Element subclasses)',
            'Model/Valence.lean is a hand transcription of the Python functions, validated by the correspondence streams',
            'Spec/OrganicValence.lean (normal valences B3 C4 N3,5 O2 P3,5 S2,4,6 halogens 1, OpenSMILES)']
@@ -56,6 +59,13 @@ CHARGES = [-2, -1, 0, 1, 2]
 HMAX = 4
 # OpenSMILES "normal valences" of the organic subset (independent reference for the search oracle)
 NORMAL_VALENCE = {5: (3,), 6: (4,), 7: (3, 5), 8: (2,), 9: (1,), 15: (3, 5), 16: (2, 4, 6), 17: (1,), 35: (1,), 53: (1,)}
+
+# valence electrons of the p-block elements (groups 13-17), for the Lewis electron-count oracle (Bi left out)
+VALENCE_ELECTRONS = {5: 3, 13: 3, 31: 3, 49: 3, 81: 3, 6: 4, 14: 4, 32: 4, 50: 4, 82: 4, 7: 5, 15: 5, 33: 5, 51: 5,
+                     8: 6, 16: 6, 34: 6, 52: 6, 84: 6, 9: 7, 17: 7, 35: 7, 53: 7, 85: 7}
+# lowest normal valence of the common charged states (isoelectronic rule)
+CHARGED_VALENCE = {(5, -1): 4, (6, 1): 3, (6, -1): 3, (7, 1): 4, (7, -1): 2, (8, 1): 3, (8, -1): 1, (8, -2): 0, (9, -1): 0,
+                   (15, 1): 4, (15, -1): 2, (16, -1): 1, (16, -2): 0, (17, -1): 0, (35, -1): 0, (53, -1): 0}
 
 _state = {}
 
@@ -429,6 +439,7 @@ def hop_stream(ctx):
 # ------------------------------------------------------------------------------------------------
 
 def correspond(ctx):
+    ctx.notes.append(f't+{ctx.elapsed():.0f}s build+audit done')
     ctx.c04_bad_ctx = []
     ctx.c04_bad_mols = []
     ctx.cov['programs'] = 12  # implicify_hydrogens, explicify_hydrogens, check_implicit on stored marks after canonicalize/standardize/kekule/thiele, _compiled_valence_rules, calc_implicit, check_implicit, check_valence, fix_structure, brutto, molecular_charge, is_radical, molecular_mass
@@ -457,7 +468,7 @@ def correspond(ctx):
     ctx.sample({'stream': 'rules', 'request': 'rules 8', 'response': resp[zs.index(8)][:160] + ' ...'})
 
     # -- stream 2: exhaustive grid ---------------------------------------------------------------
-    reduced = False  # the full domain fits the quick budget (~30 s on 12 workers)
+    reduced = ctx.quick  # quick: H, F, Cl neighbours single-bonded only (731 500 contexts); thorough: all 24 bond kinds (2 047 500)
     quick = ctx.quick
     ms = multisets(bond_types(reduced))
     tasks = [(z, c, r, reduced) for z in ORGANIC for c in CHARGES for r in (0, 1)]
@@ -493,6 +504,7 @@ def correspond(ctx):
                 'real h:checkmask': real[(7, 1, 0)][200], 'model': model[tasks.index((7, 1, 0, reduced))].split()[200]})
     ctx.exhaustive = not any(b.name.startswith('grid/') and 'driver answered' in b.detail for b in ctx.broken)
 
+    ctx.notes.append(f't+{ctx.elapsed():.0f}s grid compared')
     # -- stream 3: random contexts: any element, aromatic / special bonds, charges -4..4 -----------
     rng = ctx.rng
     reqs, cases = [], []
@@ -520,6 +532,7 @@ def correspond(ctx):
             if sum(1 for x in ctx.broken if x.name.startswith('random/')) < 8:
                 ctx.broke('correspondence', f'random/calc_implicit+check_implicit/Z={z}', f'q={c} rad={r} bonds={b} real={h}:{mask} model={line}')
 
+    ctx.notes.append(f't+{ctx.elapsed():.0f}s random contexts done')
     # -- stream 3b: rule-driven contexts: every exception of every element fires (exact environment, with 0..h of the
     #    hydrogens explicit, one neighbour more, one less, one neighbour exchanged); thorough: all elements x small grid
     cases = []
@@ -568,9 +581,11 @@ def correspond(ctx):
     ctx.dist('rule-driven/contexts', len(cases))
     ctx.dist('rule-driven/with-valence-state', fired)
 
+    ctx.notes.append(f't+{ctx.elapsed():.0f}s rule-driven done')
     # -- stream 4: molecules ---------------------------------------------------------------------
     mols = molecule_stream(ctx)
     mols += hop_stream(ctx)   # stream 5: implicify/explicify vs model; results of all H-writing operations observed below
+    ctx.notes.append(f't+{ctx.elapsed():.0f}s molecule + H-op streams generated')
     lines = [wire.mol_to_line(m) for _, m in mols]
     resp = core.run_driver('C04', ['mol ' + l for l in lines])
     # malformed: atom that does not exist
@@ -598,7 +613,7 @@ def correspond(ctx):
     if mols:
         ctx.sample({'stream': 'mol', 'name': mols[3][0], 'request': 'mol ' + lines[3][:120], 'response': resp[3][:200]})
     # missing atom: calc_implicit(n) raises KeyError, the model reports failure
-    ctx.notes.append(f'molecules compared: {len(mols)}')
+    ctx.notes.append(f't+{ctx.elapsed():.0f}s molecules compared: {len(mols)}')
 
 
 # ------------------------------------------------------------------------------------------------
@@ -674,23 +689,39 @@ def ctx_oracle(z, charge, radical, bonds, rng=None):
     out = []
     h, mask = real_calc(z, charge, radical, bonds)
     hh = None if h < 0 else h
-    tag = f'Z={z}/q={charge}/rad={int(bool(radical))}'
+    tag = f'Z={z}'
     exp, allowed = spec_h(z, charge, radical, bonds)
     if hh != exp:
-        out.append((f'C04/calc-vs-tables/{tag}', f'calc_implicit gives {hh}, the first matching rule of the element tables gives {exp} for bonds {bonds}'))
+        out.append(('C04/calc-vs-tables', f'calc_implicit gives {hh}, the first matching rule of the element tables gives {exp} for bonds {bonds}'))
     if not any(o == 4 for o, _ in bonds) and z != 1:
         for i in range(HMAX + 1):
             if bool(mask >> i & 1) != (i in allowed):
-                out.append((f'C04/check-vs-tables/{tag}', f'check_implicit(h={i}) is {bool(mask >> i & 1)}, tables say {i in allowed} for bonds {bonds}'))
+                out.append(('C04/check-vs-tables', f'check_implicit(h={i}) is {bool(mask >> i & 1)}, tables say {i in allowed} for bonds {bonds}'))
                 break
     if hh is not None and not any(o == 4 for o, _ in bonds) and not (mask >> hh & 1) and hh <= HMAX:
-        out.append((f'C04/check-of-calc/{tag}', f'calc_implicit gives {hh} but check_implicit({hh}) is False for bonds {bonds}'))
+        out.append(('C04/check-of-calc', f'calc_implicit gives {hh} but check_implicit({hh}) is False for bonds {bonds}'))
     # OpenSMILES normal valence (organic subset, neutral, non-radical, localised bonds, v <= lowest normal valence)
     if z in NORMAL_VALENCE and not charge and not radical and all(o in (1, 2, 3) for o, _ in bonds):
         v = sum(o for o, _ in bonds)
         v0 = NORMAL_VALENCE[z][0]
         if v <= v0 and hh != v0 - v:
             out.append((f'C04/organic-reference/{tag}', f'calc_implicit gives {hh}; normal valence {v0} with bond order sum {v} requires {v0 - v}'))
+    if (z, charge) in CHARGED_VALENCE and not radical and all(o in (1, 2, 3) for o, _ in bonds):
+        v = sum(o for o, _ in bonds)
+        v0 = CHARGED_VALENCE[(z, charge)]
+        if v <= v0 and hh != v0 - v:
+            out.append((f'C04/charged-reference/{tag}', f'calc_implicit gives {hh}; the isoelectronic normal valence {v0} with bond order sum {v} requires {v0 - v}'))
+    # Lewis electron count: V + r <= e - q and e - q - V - r even (bare atom V = 0 exempt), for assigned and accepted counts
+    if z in VALENCE_ELECTRONS and not any(o == 4 for o, _ in bonds):
+        v = sum(o for o, _ in bonds if o != 8)
+        e = VALENCE_ELECTRONS[z] - charge - int(bool(radical))
+        cand = ([hh] if hh is not None else []) + [i for i in range(HMAX + 1) if mask >> i & 1]
+        for hc in cand:
+            V = v + hc
+            if V and not (V <= e and (e - V) % 2 == 0):
+                out.append((f'C04/lewis-electron-count/{tag}', f'hydrogen count {hc} is assigned/accepted for bonds {bonds}: total valence {V} with '
+                            f'{VALENCE_ELECTRONS[z]} valence electrons, charge {charge}, radical {bool(radical)} is not a Lewis structure'))
+                break
     # RDKit: whenever chython finds a valence state, RDKit accepts the atom and counts the same hydrogens
     if hh is not None and z != 1 and z in NORMAL_VALENCE and abs(charge) <= 2:
         g = rdkit_h(z, charge, radical, bonds)
@@ -706,7 +737,7 @@ def ctx_oracle(z, charge, radical, bonds, rng=None):
             perms.append(tuple(p))
         for p in perms:
             if real_calc(z, charge, radical, p) != (h, mask):
-                out.append((f'C04/order-dependence/{tag}', f'calc/check differ between bond orders {bonds} and {p}'))
+                out.append(('C04/order-dependence', f'calc/check differ between bond orders {bonds} and {p}'))
                 break
     return out
 
@@ -725,7 +756,7 @@ def mol_oracle(mol):
         if exp is None:
             exp_bad.append(n)
         if a.implicit_hydrogens != exp:
-            out.append((f'C04/atom-h-vs-tables/Z={a.atomic_number}/q={a.charge}/rad={int(a.is_radical)}',
+            out.append(('C04/atom-h-vs-tables',
                         f'atom {n}: implicit_hydrogens {a.implicit_hydrogens}, tables give {exp} for bonds {bonds}'))
     cv = m.check_valence()
     if sorted(cv) != sorted(exp_bad):
